@@ -148,6 +148,18 @@ class C16(Check):
                 items.append(["f", ["u", 8, "s"], "tail"])
                 root["defs"].append({"name": rn + ".EmptyHost", "ver": [1, 0], "port": None, "ext": "dsdl", "dep": False,
                                      "secs": [{"union": rng.random() < 0.3, "hdr": None, "items": items, "seal": rng.choice(["sealed", {"slack": 2}])}]})
+            if rng.random() < 0.3 and not ({(rn + ".Slot").lower(), (rn + ".Rack").lower()} & {d["name"].lower() for d in root["defs"]}):
+                # a short FIXED array (10-17 elements, not parameterised) whose element holds a parameterised variable-length array:
+                # the k-fold repetition of a multi-residue element must stay cheap for every capacity of the inner array
+                el = rng.choice([["u", 8, "s"], ["u", 16, "s"], ["u", 3, "t"], ["bool"]])
+                root["defs"].append({"name": rn + ".Slot", "ver": [1, 0], "port": None, "ext": "dsdl", "dep": False,
+                                     "secs": [{"union": False, "hdr": None, "items": [["f", ["var", el, {"p": rr}], "data"]], "seal": "sealed"}]})
+                sref = ["ref", rn + ".Slot", 1, 0]
+                ritems = [["f", ["arr", sref, rng.choice([10, 12, 13, 14, 16, 17])], "slots"], ["f", ["u", 8, "s"], "tail"]]
+                if rng.random() < 0.4:
+                    ritems.insert(0, ["f", ["var", sref, 2], "spare"])
+                root["defs"].append({"name": rn + ".Rack", "ver": [1, 0], "port": None, "ext": "dsdl", "dep": False,
+                                     "secs": [{"union": False, "hdr": None, "items": ritems, "seal": "sealed"}]})
             for d in ws["roots"][0]["defs"]:
                 for s in d["secs"]:
                     if isinstance(s.get("seal"), int) and not isinstance(s.get("seal"), bool):
